@@ -566,6 +566,14 @@ func main() {
 		if c.Expected != "" {
 			fmt.Printf(" expected tree: %s\n", c.Expected)
 		}
+		if f == nil && strings.HasPrefix(c.Stream, "text") {
+			f = h.evalText(c)
+			if h.model != nil {
+				q, _ := textRequest(c.Mode, h.maxRec, c.src())
+				reply, _ := h.model.Ask(q)
+				fmt.Printf(" composed model (text): %s\n", reply)
+			}
+		}
 		if f != nil {
 			fmt.Printf(" verdict: %s (%s) %s\n", f.kind, f.class, f.what)
 			run.Violate(f.kind, f.class+": "+f.what, "", f.kind == "correspondence", c)
@@ -744,5 +752,7 @@ func main() {
 		b.add(&genCase{mode: "value", lex: lex, seed: seed, class: r.Intn(layClasses), stream: "mutant-value"})
 	}
 	b.flush()
+	// (T) raw texts through the real parser and the composed model scanner ∘ parser (text.go)
+	h.textStream(b)
 	run.Finish(h.model)
 }
